@@ -34,6 +34,8 @@ def descs():
     return {
         "scalar": dict(kind="num", vn=["out", ["out"], ("out",)], vd=[None],
                        vars={"out": ((), lambda v: v)}),
+        "strout": dict(kind="str", vn=["out", ["out"]], vd=[None],
+                       vars={"out": ((), lambda v: v)}),
         "two": dict(kind="tuple2", vn=[["x", "y"], ("x", "y")], vd=[None],
                     vars={"x": ((), lambda v: v[0]), "y": ((), lambda v: v[1])}),
         "arr1": dict(kind="array", vn=["out", ["out"]],
@@ -80,7 +82,7 @@ def descs():
 
 
 DESCS = descs()
-DF_OK = ("scalar", "two", "attrs")
+DF_OK = ("scalar", "strout", "two", "attrs")
 
 
 def inputs(tier):
